@@ -54,6 +54,9 @@ def tasks(tier):
                     ('lines', 'a\r\n', 4 if quick else 5),
                     ('mix', 'ab\n', 3 if quick else 5)):
                 out.append(dict(mode=mode, inst_sw=inst_sw, menu=menu, sigma=sigma, L=L))
+    # a descriptor that reports EOF and later delivers more (regular file that grows, re-opened FIFO)
+    out.append(dict(mode='bytes', inst_sw=None, menu='re', sigma='ab', L=3 if quick else 5, resume_after_eof=True))
+    out.append(dict(mode='utf-8', inst_sw=None, menu='lines', sigma='a\r\n', L=3 if quick else 4, resume_after_eof=True))
     if not quick:
         for menu in ('re', 'exact', 'mix'):
             out.append(dict(mode='bytes', inst_sw=None, menu=menu, sigma='ab', L=8))
@@ -170,7 +173,7 @@ class World(object):
             nreads[0] += 1
             if nreads[0] > max_reads:
                 raise Livelock()
-            if env[1]:
+            if env[1] and not self.task.get('resume_after_eof'):
                 return EOF
             opts = list(self.chunks[min(2, env[0])])
             if not used_empty[0]:
@@ -184,6 +187,7 @@ class World(object):
             elif a is TIMEOUT:
                 pass
             else:
+                env[1] = False         # (resume_after_eof tasks: a growing file delivers again after EOF)
                 if a == b'':
                     used_empty[0] = True
                     if flags is not None:
@@ -383,7 +387,7 @@ def run_task(task, world_cls=None):
     install_clock()
     acc = Acc()
     w = (world_cls or World)(task)
-    init = (w.S(''), w.S(''), w.S(''), task['L'], False, False, task['inst_sw'])
+    init = (w.S(''), w.S(''), w.S(''), task['L'], False, False, task['inst_sw'], (0, 0))
     cap = task.get('cap', 400000)
     parent = {init: None}
     frontier = [init]
@@ -398,12 +402,12 @@ def run_task(task, world_cls=None):
                 def run(ch, st=st, call=call):
                     CLOCK.reset()
                     sp = w.new_spawn()
-                    sp.restore(st[0], st[1], st[5])
+                    sp.restore(st[0], st[1], st[5], st[7])
                     sp.searchwindowsize = st[6]
                     env = [st[3], st[4], st[2]]
                     out, viol = w.do_call(sp, env, call, ch, flags)
                     b, f = sp.snap()
-                    return out, viol, (b, f, env[2], env[0], env[1], sp.aliased(), sp.searchwindowsize)
+                    return out, viol, (b, f, env[2], env[0], env[1], sp.aliased(), sp.searchwindowsize, sp.positions())
                 for ch, (out, viol, ns) in dfs(run):
                     acc.execs += 1
                     acc.transitions += 1
@@ -432,10 +436,10 @@ def run_task(task, world_cls=None):
             sp, env, obs, viol = w.run_history(hist)
             live_checked += 1
             b, f = sp.snap()
-            if viol or (b, f, env[2], env[0], env[1], sp.aliased(), sp.searchwindowsize) != ns:
+            if viol or (b, f, env[2], env[0], env[1], sp.aliased(), sp.searchwindowsize, sp.positions()) != ns:
                 acc.violation('snapshot-vs-live-divergence',
                               'state %r reached by restore differs from live run %r'
-                              % (ns, (b, f, env[2], env[0], env[1], sp.aliased(), sp.searchwindowsize)),
+                              % (ns, (b, f, env[2], env[0], env[1], sp.aliased(), sp.searchwindowsize, sp.positions())),
                               {'task': task, 'history': hist, 'expect_state': list(ns)})
         frontier = nxt
         depth += 1
@@ -477,7 +481,7 @@ def replay(spec, world_cls=None):
                             'msg': 'pending %r' % (sp._before.getvalue(),)}
     elif 'expect_state' in spec:
         b, f = sp.snap()
-        now = [b, f, env[2], env[0], env[1], sp.aliased(), sp.searchwindowsize]
+        now = [b, f, env[2], env[0], env[1], sp.aliased(), sp.searchwindowsize, list(sp.positions())]
         if now != list(spec['expect_state']):
             out['violation'] = {'key': 'snapshot-vs-live-divergence', 'msg': repr(now)}
     return out
